@@ -148,8 +148,9 @@ func C13() int {
 		for _, p := range dotted {
 			all = append(all, strings.Join(p, "."))
 		}
-		for _, d := range dollar {
-			all = append(all, "$"+d)
+		for k, d := range dollar {
+			// one leading '$' - or several ("$$ROOT", "$$this.price" are how variables are written)
+			all = append(all, strings.Repeat("$", 1+(k%7)/5+(k%11)/10)+d)
 		}
 		return all
 	}()
